@@ -508,7 +508,7 @@ func RuleS2(c *Ctx) {
 			switch {
 			case len(Ek) == 0:
 				configs = append(configs, "E = 0")
-			case s2Remainder(pc, fn, Ek, Tk):
+			case s2Remainder(pc, fn, Ek, Tk, sub):
 				configs = append(configs, "E = n - T*(n/T), a remainder")
 			case len(long) > 0 && len(short) == 0 && Ek.eq(Tk):
 				configs = append(configs, "E = T")
@@ -532,14 +532,15 @@ func hasCond(p *s2Path, cond ssa.Value, taken bool) bool {
 }
 
 // s2Remainder: E = X - Y*(X/Y) for an integer division X/Y of the function with Y = T.
-func s2Remainder(pc *polyCtx, fn *ssa.Function, E, T poly) bool {
+func s2Remainder(pc *polyCtx, fn *ssa.Function, E, T poly, sub map[string]poly) bool {
 	found := false
 	core.AllInstrs(fn, func(in ssa.Instruction) {
 		q, ok := in.(*ssa.BinOp)
 		if !ok || q.Op != token.QUO {
 			return
 		}
-		X, Y := pc.of(q.X, 0), pc.of(q.Y, 0)
+		// the division is looked at on the same way into the loop as E and T
+		X, Y := pc.of(q.X, 0).subst(sub), pc.of(q.Y, 0).subst(sub)
 		if Y.eq(T) && E.eq(X.add(Y.mul(pc.leafPoly(q)), -1)) {
 			found = true
 		}
@@ -564,11 +565,13 @@ func RuleR2(c *Ctx) {
 		}
 		fam := core.Family(top)
 		type chunk struct {
-			sl   *ssa.Slice
-			base ssa.Value
-			v    ssa.Value
-			P, B poly
-			fn   *ssa.Function
+			sl      *ssa.Slice
+			base    ssa.Value
+			v       ssa.Value
+			P, B    poly
+			fn      *ssa.Function
+			clamped bool      // the upper bound is min((v+1)*P, len(base))
+			bval    ssa.Value // the count B as a value
 		}
 		pc := &polyCtx{}
 		// values of closures stand for what they capture / are given at their single call site
@@ -637,6 +640,16 @@ func RuleR2(c *Ctx) {
 					return
 				}
 				hi := pc.of(sl.High, 0)
+				// a clamped upper bound: hi = lo+P, replaced by len(base) when it would exceed it
+				clamped := false
+				if ph, isPhi := core.StripConv(pc.tr(core.StripConv(sl.High))).(*ssa.Phi); isPhi && len(ph.Edges) == 2 {
+					for k := 0; k < 2; k++ {
+						if x, isLen := core.IsLenOf(core.StripConv(ph.Edges[k])); isLen && (baseOf(pc.tr(core.StripConv(x))) == base || core.SameExpr(baseOf(pc.tr(core.StripConv(x))), base)) {
+							hi = pc.of(ph.Edges[1-k], 0)
+							clamped = true
+						}
+					}
+				}
 				// the counter: a loop variable that lo is linear in — of fn, or of the function that spawns fn in a loop
 				type lp struct {
 					cl *countedLoop
@@ -669,8 +682,10 @@ func RuleR2(c *Ctx) {
 					}
 					// range of the counter
 					var B poly
+					var bval ssa.Value
 					if z, isZ := core.ConstInt(cl.init); isZ && z == 0 {
 						B = pc.of(cl.bound, 0)
+						bval = cl.bound
 					} else if ip, isP := core.StripConv(cl.init).(*ssa.Parameter); isP {
 						// for v := start; v < end; v++ in a callback of parallel.Execute(B, …)
 						if bp, isBP := core.StripConv(cl.bound).(*ssa.Parameter); isBP && ip.Parent() == fn && bp.Parent() == fn && len(fn.Params) == 2 && fn.Params[0] == ip && fn.Params[1] == bp {
@@ -678,6 +693,7 @@ func RuleR2(c *Ctx) {
 								if s.kind == "Execute" && s.target == fn {
 									if call, isCall := s.at.(*ssa.Call); isCall && len(call.Call.Args) > 0 {
 										B = pc.of(call.Call.Args[0], 0)
+										bval = call.Call.Args[0]
 									}
 								}
 							}
@@ -686,7 +702,7 @@ func RuleR2(c *Ctx) {
 					if B == nil {
 						continue
 					}
-					chunks = append(chunks, chunk{sl, base, cl.phi, P, B, fn})
+					chunks = append(chunks, chunk{sl, base, cl.phi, P, B, fn, clamped, bval})
 				}
 			})
 		}
@@ -706,8 +722,36 @@ func RuleR2(c *Ctx) {
 					lenLeaf = pc.leafPoly(l)
 				}
 			}
+			// a base of fixed size: make([]T, K) with a constant K, or a whole array
+			if lenLeaf == nil {
+				switch bv := ch.base.(type) {
+				case *ssa.MakeSlice:
+					if k, isK := core.ConstInt(bv.Len); isK {
+						lenLeaf = poly{"": k}.norm()
+					}
+				case *ssa.Slice:
+					if k, isK := core.ConstInt(bv.High); bv.Low == nil && bv.High != nil && isK {
+						lenLeaf = poly{"": k}.norm()
+					} else if bv.Low == nil && bv.High == nil {
+						if pt, isP := bv.X.Type().Underlying().(*types.Pointer); isP {
+							if at, isA := pt.Elem().Underlying().(*types.Array); isA {
+								lenLeaf = poly{"": at.Len()}.norm()
+							}
+						}
+					}
+				}
+			}
 			okCover := lenLeaf != nil && total.eq(lenLeaf)
 			how := "B*P = len(base)"
+			if ch.clamped && !okCover && lenLeaf != nil {
+				// clamped chunks cover min(B*P, len): enough when B is the ceiling (len + P - 1) / P
+				if q, isQ := core.StripConv(pc.tr(core.StripConv(ch.bval))).(*ssa.BinOp); isQ && q.Op == token.QUO {
+					if pc.of(q.Y, 0).eq(ch.P) && pc.of(q.X, 0).eq(lenLeaf.add(ch.P, 1).add(poly{"": 1}, -1)) {
+						okCover = true
+						how = "clamped chunks, B = ceil(len(base)/P)"
+					}
+				}
+			}
 			if !okCover {
 				for _, t := range tails {
 					if (t.base == ch.base || core.SameExpr(t.base, ch.base)) && t.P.eq(total) {
@@ -716,7 +760,7 @@ func RuleR2(c *Ctx) {
 					}
 				}
 			}
-			c.Check(okCover, "R2", key, ch.sl.Pos(), fmt.Sprintf("%s cuts %s into %s chunks of %s elements, which cover %s elements, and neither is that len(%s) identically nor is the tail from there on processed: when the division leaves a remainder the last elements are never touched", core.FnName(ch.fn), shortPath(ch.base), pc.show(ch.B), pc.show(ch.P), pc.show(total), shortPath(ch.base)), how)
+			c.Check(okCover, "R2", key, ch.sl.Pos(), fmt.Sprintf("%s cuts %s into %s chunks of %s elements, which cover %s elements, and neither is that len(%s) identically (nor the count a ceiling division with a clamped last chunk) nor is the tail from there on processed: when the division leaves a remainder the last elements are never touched", core.FnName(ch.fn), shortPath(ch.base), pc.show(ch.B), pc.show(ch.P), pc.show(total), shortPath(ch.base)), how)
 		}
 	}
 	c.FloorN("R2", 1, n, "equal-chunk slicings")
